@@ -3,6 +3,7 @@ import re
 
 from analysis.facts import callee, callee_short
 from analysis.cfg import cfg
+from analysis.guards import resolve_cond
 from analysis.defuse import Tracer
 
 INT_TYPES = ('i32',)
@@ -39,10 +40,6 @@ TABLE = {
         'current_turn_index - recorded turn index: both are turn counters in [0, 2^31)',
     'Story::increment_content_pointer|overflow:Add|field:Pointer::index':
         'pointer.index += 1; bounded by content.len() for every pointer the engine builds',
-    'CallStack::get_temporary_variable_with_name|overflow:Sub|arg:3':
-        'context_index - 1 where context_index is an engine-assigned call-stack depth (>= 1 after the -1 default is replaced)',
-    'CallStack::set_temporary_variable|overflow:Sub|arg:5':
-        'context_index - 1, engine-assigned call-stack depth',
     'Container::content_at_path|overflow:Sub|arg:4':
         'partial_path_length - 1; callers pass path.len() or a loop bound (>= 0)',
     'Story::next_sequence_shuffle_index|i32::rem_euclid|call:Vec::len':
@@ -226,6 +223,150 @@ def run(chk, prog):
         chk.decide(RD, chk.key(RD, 'getter-returns-option'), g_on.body['locals'][0]['ty'].startswith('core::option::Option<'),
                    'the origin name is optional in the type (%d unwraps of it found)' % nun,
                    'InkListItem::get_origin_name no longer returns an Option', g_on.loc(0))
+
+    # ---------------------------------------------------------------- E
+    RE = 'C04.popped-values-not-unwrapped'
+    chk.rule(RE, 'The dynamic type of a value taken from the evaluation stack is decided by the story (a function that '
+             'returns nothing leaves Void there): no unwrap/expect is applied to a downcast (Value::get_value, downcast, '
+             'downcast_ref) of a value that comes from pop/peek_evaluation_stack, or - inside NativeFunctionCall - from the '
+             'operand vector, unless the success of that very downcast was tested on the way (is_some / is_ok / if let) or '
+             'the site is one of the confirmed exceptions below, each of which rests on a condition that is checked '
+             'separately.')
+    POPPED_EXCEPTIONS = {
+        'NativeFunctionCall::call_binary_list_operation|Rc::downcast':
+            'operands are Values: NativeFunctionCall::call rejects Void before dispatching (rule C04.void-rejected-before-dispatch)',
+        'NativeFunctionCall::call_list_increment_operation|Value::get_value':
+            'called only from call_binary_list_operation under is_some() tests of exactly these two downcasts '
+            '(checked below: single caller, dominated by both tests)',
+        'Story::pop_choice_string_and_tags|Rc::downcast':
+            'the loop condition tests peek_evaluation_stack().is::<Tag>() before each pop (checked below)',
+        'Story::pop_choice_string_and_tags|peek':
+            'the same loop condition tests !evaluation_stack.is_empty() first (short-circuit &&)',
+        'Story::perform_logic_and_flow_control|Value::get_value|generated_list_value':
+            'generated_list_value is assigned Some(..) on the is_none() path immediately before (local reassignment the '
+            'guard analysis does not follow)',
+    }
+    lt_ = Tracer(prog, transparent=lambda cs: True, use_summaries=False)
+    SRC_ = ('StoryState::pop_evaluation_stack', 'StoryState::pop_evaluation_stack_multiple', 'StoryState::peek_evaluation_stack')
+    from analysis.panics import guard_dominated
+    n_tainted, used_exc = 0, set()
+    for fn in sorted(prog.fns.values(), key=lambda f: f.p):
+        if fn.crate != 'bladeink':
+            continue
+        root = prog.root_fn(fn)
+        in_nfc = (root.self_adt or '').endswith('NativeFunctionCall')
+        ordn = {}
+        for s_ in panic_sites(prog, fn):
+            if not s_['kind'].startswith('unwrap:') or not s_['term']['args']:
+                continue
+            at = lt_.prov(fn, s_['term']['args'][0])
+            vias = {a[4:] for a in at if a.startswith('via:')}
+            src = [v for v in vias if v in SRC_]
+            if in_nfc:
+                src += [a for a in at if a.startswith('arg:') and 'dyn' in fn.local_ty(int(a[4:]))
+                        and 'RTObject' in fn.local_ty(int(a[4:]))]
+            down = sorted(v for v in vias if v.rsplit('::', 1)[-1] in ('get_value', 'downcast', 'downcast_ref'))
+            if src and not down and 'StoryState::peek_evaluation_stack' in vias:
+                down = ['peek']          # the Option returned by peek itself: None on an empty stack
+            if not src or not down:
+                continue
+            n_tainted += 1
+            if guard_dominated(prog, fn, s_, tr):
+                chk.ok(RE, chk.key(RE, root.short, down[0], 'guarded#%d' % n_tainted), 'tested before use', fn.loc(s_['bb']))
+                continue
+            lname = None
+            a0 = s_['term']['args'][0]
+            if a0['k'] in ('copy', 'move'):
+                from rules.c08 import named_source
+                lname = fn.local_name(named_source(fn, a0['pl']['l']))
+            ek = '%s|%s' % (root.short, down[0])
+            ek2 = ek + '|' + (lname or '')
+            exc = POPPED_EXCEPTIONS.get(ek2) or POPPED_EXCEPTIONS.get(ek)
+            i_ = ordn.get(ek, 0)
+            ordn[ek] = i_ + 1
+            if exc:
+                used_exc.add(ek2 if ek2 in POPPED_EXCEPTIONS else ek)
+                chk.ok(RE, chk.key(RE, root.short, down[0], 'exception#%d' % i_), 'confirmed exception: ' + exc, fn.loc(s_['bb']))
+            else:
+                chk.fail(RE, chk.key(RE, root.short, down[0], '#%d' % i_),
+                         '%s unwraps a downcast (%s) of a value taken from the evaluation stack without testing it: a story '
+                         'that leaves a value of another kind there (Void from a function without return, ...) aborts the '
+                         'process instead of reporting a story error' % (root.short, down[0]), fn.loc(s_['bb']))
+    chk.floor(RE, 'unwraps of downcast evaluation-stack values examined', n_tainted, 10)
+
+    # backing conditions of the exceptions
+    RF = 'C04.void-rejected-before-dispatch'
+    chk.rule(RF, 'In NativeFunctionCall::call every dispatch (call_binary_list_operation, coerce_values_to_single_type, '
+             'call_type) is dominated by the test that rejects a Void operand, and that test leads to an Err return.')
+    nc = prog.fn('NativeFunctionCall::call')
+    if chk.anchor(RF, 'NativeFunctionCall::call', nc):
+        gnc = cfg(nc)
+
+        def is_void_test(fn_, t_):
+            return callee_short(t_).endswith('::is') and any('void::Void' in x or x.endswith('Void') for x in (t_['f'].get('targs') or []))
+        tests = []
+        loops_nc = gnc.loops_heads()
+        for bb, t_ in nc.calls():
+            if is_void_test(nc, t_):
+                tests.append(bb)
+                # a test inside a loop over the operands: what follows the loop has passed it for every operand
+                for h_, tails_ in loops_nc.items():
+                    if bb in gnc.loop_body(h_, tails_):
+                        tests.append(h_)
+        for c_ in prog.closures_of(nc):
+            if any(is_void_test(c_, t_) for _, t_ in c_.calls()):
+                # an iterator adaptor taking that closure
+                mark = '{closure@%s:%d:' % (c_.sp['f'], c_.sp['l'])
+                for bb, t_ in nc.calls():
+                    if any(a.get('k') in ('copy', 'move') and mark in nc.local_ty(a['pl']['l']) for a in t_['args']):
+                        tests.append(bb)
+        disp = [(bb, callee_short(t_)) for bb, t_ in nc.calls() if callee_short(t_) in (
+            'NativeFunctionCall::call_binary_list_operation', 'NativeFunctionCall::coerce_values_to_single_type',
+            'NativeFunctionCall::call_type', 'NativeFunctionCall::call_list_increment_operation')]
+        if chk.anchor(RF, 'Void test in NativeFunctionCall::call', tests) and chk.floor(RF, 'dispatch calls', len(disp), 3):
+            for bb, cs in disp:
+                chk.decide(RF, chk.key(RF, cs), any(gnc.dominates(tb, bb) for tb in tests),
+                           'dominated by the Void test',
+                           'NativeFunctionCall::call dispatches to %s before it has rejected Void operands: the callee '
+                           'unwraps the downcast of its operands to Value' % cs, nc.loc(bb))
+    inc = prog.fn('NativeFunctionCall::call_list_increment_operation')
+    if chk.anchor(RF, 'NativeFunctionCall::call_list_increment_operation', inc):
+        callers = prog.callers('NativeFunctionCall::call_list_increment_operation')
+        ok_ = len(callers) == 1
+        why = 'callers: %s' % [prog.root_fn(c[0]).short for c in callers]
+        if ok_:
+            cf, cbb, ct = callers[0]
+            gcf = cfg(cf)
+            tested = set()
+            for b in gcf.dominators().get(cbb, ()):
+                tt = cf.blocks[b]['term']
+                if tt and tt['k'] == 'switch':
+                    c = resolve_cond(prog, cf, tt['d'], tr)
+                    if c is not None and c.desc[0] == 'is_some':
+                        # the call must lie on the Some side
+                        good = [tb for v, tb in tt['ts'] if c.truth_of_value(v)]
+                        rest = {0, 1} - {v for v, _ in tt['ts']}
+                        if rest and c.truth_of_value(next(iter(rest))):
+                            good.append(tt['else'])
+                        bad_ = [x for x in ([tb for v, tb in tt['ts']] + [tt['else']]) if x not in good]
+                        if cbb not in gcf.reachable(bad_):
+                            tested.add(b)
+            ok_ = len(tested) >= 2
+            why = '%d dominating is_some tests on the call path' % len(tested)
+        chk.decide(RF, chk.key(RF, 'increment-operands-tested'), ok_, why,
+                   'call_list_increment_operation unwraps its two downcasts but is not called under tests of both (%s)' % why,
+                   inc.loc(0))
+    pct = prog.fn('Story::pop_choice_string_and_tags')
+    if chk.anchor(RF, 'Story::pop_choice_string_and_tags', pct):
+        gp = cfg(pct)
+        is_tag = [bb for bb, t_ in pct.calls() if callee_short(t_).endswith('::is') and any(
+            x.endswith('Tag') for x in (t_['f'].get('targs') or []))]
+        dc = [bb for bb, t_ in pct.calls() if callee_short(t_) == 'Rc::downcast']
+        chk.decide(RF, chk.key(RF, 'tag-pop-tested'), bool(is_tag) and bool(dc) and all(
+            any(gp.dominates(tb, b) for tb in is_tag) for b in dc),
+            'the downcast to Tag is dominated by the is::<Tag>() test',
+            'pop_choice_string_and_tags downcasts a popped value to Tag without the is::<Tag>() test before it',
+            pct.loc(dc[0]) if dc else pct.loc(0))
 
     # ---------------------------------------------------------------- B
     ci = prog.fn('Story::continue_internal')
